@@ -378,7 +378,7 @@ func (t *Tree) internalDelete(subpath []string, condition func(interface{}) bool
 			// progeny leaves.
 			var allLeaves [][]string
 			for k, v := range b {
-				del, leaves := v.internalDelete(subpath, condition, f, retDeletedPaths)
+				del, leaves := v.lockedDelete(subpath, condition, f, retDeletedPaths)
 				if retDeletedPaths {
 					leaf := []string{k}
 					for _, l := range leaves {
@@ -411,7 +411,7 @@ func (t *Tree) internalDelete(subpath []string, condition func(interface{}) bool
 	if b, ok := t.leafBranch.(branch); ok {
 		// Continue to recurse on subpath while it matches nodes in the Tree.
 		if br := b[subpath[0]]; br != nil {
-			delBr, allLeaves := br.internalDelete(subpath[1:], condition, f, retDeletedPaths)
+			delBr, allLeaves := br.lockedDelete(subpath[1:], condition, f, retDeletedPaths)
 			if retDeletedPaths {
 				leaf := []string{subpath[0]}
 				// Prepend branch node name to all progeny leaves of branch.
@@ -433,6 +433,15 @@ func (t *Tree) internalDelete(subpath []string, condition func(interface{}) bool
 	}
 	// The subpath doesn't match any Tree branch, return empty list of leaves.
 	return false, nil
+}
+
+// lockedDelete is internalDelete on a node below the root. The root write lock
+// held by the caller excludes every other tree operation, but not updates made
+// through a retained Leaf handle, which only take the lock of the leaf node.
+func (t *Tree) lockedDelete(subpath []string, condition func(interface{}) bool, f func(interface{}), retDeletedPaths bool) (bool, [][]string) {
+	defer t.mu.RUnlock()
+	t.mu.RLock()
+	return t.internalDelete(subpath, condition, f, retDeletedPaths)
 }
 
 // DeleteConditional removes all leaves at or below subpath as well as any
